@@ -35,7 +35,7 @@ type diffFeatures struct {
 	descents, ascents, laterals, rewinds, repeats, failingMoves         int
 	maxDepth                                                            int
 	reloaded, reentered, limitHit, emptyResult                          bool
-	langSwitches, invalidLang                                           int
+	langSwitches, invalidLang, renderErrors                             int
 	translatedRender, untranslatedRender                                bool
 	ended                                                               string
 	afterEnd                                                            int
@@ -383,9 +383,9 @@ func modelDiff(a *app.App, inputs []BS, mode app.Mode, asp diffAspects, hooks *d
 			return nil, f, ""
 		}
 		if rs.FlushErr != "" {
-			// a failed render ends what is compared: the client got an error
-			f.bail = "render error"
-			return nil, f, ""
+			// a failed render is an error for that request; the session itself (compared
+			// above) is where the code left it, and the history goes on
+			f.renderErrors++
 		}
 		if !rs.Cont && mode.Kind != "persist" {
 			return nil, f, ""
